@@ -200,6 +200,29 @@ def cases(tier):
             out.append(mk([a, mid, b], "bytesio"))
             if k % 5 == 0 or len(payload) > 200:
                 out.append(mk([a, mid, b], "sock:9"))
+            if any(o.typ in ("STR", "CHA") for o in _o):
+                # text fields holding code units that are not ASCII / not valid UTF-8 / NUL
+                for mode in ("ones", "nulmix"):
+                    p2, _o2, _n2 = R.build(identity, shape, mode)
+                    out.append(mk([a, items.frame_item(f"{identity}#{k}/{mode}", p2), b], "bytesio"))
+    # several hundred DISTINCT frames through one reader (whatever a reader remembers per frame
+    # reaches its capacity), known and unknown types mixed
+    many = []
+    for k in range(700):
+        if k % 3 == 0:
+            pl = bytearray(f["F19"]["payload"])
+            pl[2], pl[3] = (k >> 8) & 0x0F | (pl[2] & 0xF0), k & 0xFF
+            many.append(items.frame_item(f"1005/{k}", bytes(pl)))
+        else:
+            many.append(items.frame_item(f"unk/{k}", items.unknown_payload(4 + k % 5, 4008, k)))
+    out.append(mk(many, "bytesio"))
+    out.append(mk(many, "sock:4096"))
+    # a UBX frame of the maximum length whose header ends exactly on a receive boundary
+    big = {"name": "ubx65535", "data": items.ubx(bytes((i * 7 + 3) & 0x7F | 0x01 for i in range(65535))),
+           "kind": "skip"}
+    pad = {"name": "pad4090", "data": b"\x00" * 4090, "kind": "skip"}
+    for kind, bs in (("sock", 4096), ("sock", 1), ("sock:" + ",".join(["4096"] * 20), 4096)):
+        out.append(mk([pad, big, a, b], kind, bufsize=bs))
     for t in items.NMEA_TALKERS:
         it = {"name": f"nmea{t}", "data": items.nmea(t), "kind": "skip"}
         for kind in ("bytesio", "sock:9", "buf:2:3"):
